@@ -130,6 +130,23 @@ def json_structured(machine, doc):
                         add("image.additional_variants:non-unified", base + ["additional_variants"], ["Server"])
                     else:
                         add("image.additional_variants:domain", base + ["additional_variants"], "Server")
+        # Images.add is applied to every loaded image: a colliding pair (equal identity, other checksums) anywhere
+        flat = [(v, a, i) for v in sorted(cells) for a in sorted(cells[v]) for i in range(len(cells[v][a]))]
+        for n, (v, a, i) in enumerate(flat[:6]):
+            for where in ("same-cell", "other-arch", "other-variant"):
+                d = copy.deepcopy(doc)
+                dup = copy.deepcopy(cells[v][a][i])
+                dup["checksums"] = dict((k, str(val) + "0") for k, val in dup["checksums"].items())
+                dup["path"] = dup["path"] + ".dup"
+                c = d["payload"]["images"]
+                if where == "same-cell":
+                    c[v][a].append(dup)
+                elif where == "other-arch":
+                    other_arch = [x for x in ("ia64", "x86_64", "ppc64le") if x != a][0]
+                    c[v].setdefault(other_arch, []).append(dup)
+                else:
+                    c.setdefault("OtherVariant", {}).setdefault(a, []).append(dup)
+                out.append({"key": "image.identity:colliding-pair/" + where, "data": _dumpj(d), "must": "reject"})
     return out
 
 
